@@ -31,7 +31,9 @@ pub struct CheckCfg {
     pub components: Value,
 }
 
-pub const VERIF_ROOT: &str = "/verif";
+pub fn verif_root() -> String {
+    std::env::var("RBXSIM_ROOT").unwrap_or_else(|_| "/verif".to_string())
+}
 
 pub fn base_seed() -> u64 {
     std::env::var("VERIF_SEED")
@@ -152,7 +154,7 @@ pub struct Orchestrator {
 impl Orchestrator {
     pub fn new(cfg: CheckCfg) -> Orchestrator {
         let tier = if cfg.thorough { "thorough" } else { "quick" };
-        let work = PathBuf::from(VERIF_ROOT).join("work").join(format!("{}-{}", cfg.property, tier));
+        let work = PathBuf::from(verif_root()).join("work").join(format!("{}-{}", cfg.property, tier));
         let _ = std::fs::remove_dir_all(&work);
         std::fs::create_dir_all(&work).expect("create work dir");
         Orchestrator { cfg, work, base_seed: base_seed(), next_job_id: 0 }
@@ -486,7 +488,7 @@ pub struct KnownFinding {
 }
 
 pub fn load_known_findings() -> Vec<KnownFinding> {
-    let path = PathBuf::from(VERIF_ROOT).join("known_findings.json");
+    let path = PathBuf::from(verif_root()).join("known_findings.json");
     let text = match std::fs::read_to_string(path) {
         Ok(t) => t,
         Err(_) => return vec![],
@@ -645,7 +647,7 @@ pub fn run_check(cfg: CheckCfg) -> i32 {
     crate::panic::install_hook();
     let engine = crate::make_engine(&engine_name);
 
-    let replay_dir = PathBuf::from(VERIF_ROOT).join("replays").join(&property);
+    let replay_dir = PathBuf::from(verif_root()).join("replays").join(&property);
     // Replays are written only for violations found by this run.
     let _ = std::fs::remove_dir_all(&replay_dir);
     let known = load_known_findings();
@@ -830,7 +832,7 @@ pub fn run_check(cfg: CheckCfg) -> i32 {
             "harness_errors": agg.harness_errors,
         }
     });
-    let ev_dir = PathBuf::from(VERIF_ROOT).join("evidence");
+    let ev_dir = PathBuf::from(verif_root()).join("evidence");
     let _ = std::fs::create_dir_all(&ev_dir);
     std::fs::write(ev_dir.join(format!("{}.json", property)), serde_json::to_string_pretty(&evidence).unwrap()).expect("write evidence");
 
@@ -892,7 +894,7 @@ pub fn replay_main(path: &str) -> i32 {
     let property = v["property"].as_str().unwrap_or("?").to_string();
     let engine_name = v["engine"].as_str().unwrap_or("").to_string();
     // exec_replay writes scratch files next to the replay; use a copy in work/.
-    let work = PathBuf::from(VERIF_ROOT).join("work").join("replay");
+    let work = PathBuf::from(verif_root()).join("work").join("replay");
     let _ = std::fs::create_dir_all(&work);
     let copy = work.join(format!("replay-{}.json", std::process::id()));
     if std::fs::write(&copy, &text).is_err() {
